@@ -182,11 +182,12 @@ def r2(idx, rep):
                         continue
             rep.analysed(fi)
             key = f"{fi.file}::{fi.qual} writes {attr}"
-            if fi.qual not in own:
+            oq = fi.qual if fi.qual in own else K.owner_of(idx, fi, set(own))   # a private helper only its owner calls writes on the owner's behalf
+            if oq is None:
                 rep.fail("R2", key, f"`{unparse(st)}`: {attr} may only be written by {sorted(own)}", K.where(fi, st))
                 continue
-            seen.add(fi.qual)
-            want = own[fi.qual]
+            seen.add(oq)
+            want = own[oq]
             if isinstance(v, ast.AugAssign):
                 got = f"{'+' if isinstance(v.op, ast.Add) else '?'}={unparse(v.value)}"
             else:
